@@ -938,6 +938,14 @@ func genStd(r *rand.Rand, tier string, w *bufio.Writer) {
 	pend := [2]int{} // stream bytes pending towards side i
 	msgs := [2]int{}
 	steps := 4 + r.Intn(16)
+	if budget > 2000000 {
+		// one 1 MiB message (fragmented into ~257 frames on the client side), read back in pieces
+		x := r.Intn(2)
+		fmt.Fprintf(w, "wmsg %s %s\n", sideName(x), hexB(randBytes(r, 1<<20)))
+		budget -= 1 << 20
+		pend[1-x] += 1 << 20
+		msgs[1-x]++
+	}
 	for s := 0; s < steps; s++ {
 		x := r.Intn(2)
 		y := 1 - x
